@@ -2012,7 +2012,14 @@ impl<R: std::io::Read> Iterator for FrameIterator<R> {
                 let offset = self.reader.count;
                 match Frame::read(&mut self.reader, self.blocks.streaminfo()) {
                     Ok(frame) => Some(Ok((frame, offset))),
-                    Err(Error::Io(err)) if err.kind() == std::io::ErrorKind::UnexpectedEof => None,
+                    // only an EOF before the first byte of a frame
+                    // is the end of the stream
+                    Err(Error::Io(err))
+                        if err.kind() == std::io::ErrorKind::UnexpectedEof
+                            && self.reader.count == offset =>
+                    {
+                        None
+                    }
                     Err(err) => Some(Err(err)),
                 }
             }
